@@ -590,6 +590,18 @@ def scenario_recipe(draw, profile=None, max_lanelets=6, max_obstacles=5, max_pps
             "lights": net["lights"], "intersections": net["intersections"], "obstacles": obstacles, "pps": pps}
 
 
+def maybe_twin(draw, net, rate=5):
+    """In one of `rate` cases a lanelet gets a twin: a second lanelet with its own id on exactly the same strip (e.g. a bus
+    lane modelled on top of a driving lane) - two lanelets with bit-identical polygons."""
+    if net["lanelets"] and draw(st.integers(0, rate - 1)) == 0:
+        src = net["lanelets"][draw(st.integers(0, len(net["lanelets"]) - 1))]
+        twin = {k: v for k, v in src.items() if k in ("left", "right", "center", "types", "lm_left", "lm_right",
+                                                       "users_one", "users_bi")}
+        twin.update(id=max(l["id"] for l in net["lanelets"]) + 5000, pred=[], succ=[])
+        net = dict(net, lanelets=net["lanelets"] + [twin])
+    return net
+
+
 def shuffled(draw, items):
     """The occupancy list of a set-based prediction is a plain list: in a third of the cases it is not in ascending
     time order (nothing in the library or the formats requires that)."""
